@@ -11,7 +11,7 @@ CLAIMS = {
             "count_true/fold_or/fold_and/alldifferent build trees whose reference denotation equals the Python "
             "meaning of the call; (Z3M) both integer bounds are asserted for every IntVar, the model is read back "
             "into sol for every variable, False only on unsat; find_answer hands every variable and constraint to a fresh backend and returns its verdict for 0/1/2 variables x 0/1/3 constraints; (VID) variable ids equal list positions in every "
-            "history (VID-4) expression trees are immutable: op/operands stored only by Expr.__init__, no in-place mutation of an operands list anywhere, no in-place operator dunder returning self. Every arity an operator's meaning allows is translated (up to 3), and 13 nested trees are translated and compared with their meaning."
+            "history (VID-4) expression trees are immutable: op/operands stored only by Expr.__init__, no in-place mutation of an operands list anywhere, no in-place operator dunder returning self. Every arity an operator's meaning allows is translated (up to 3), and 13 nested trees are translated and compared with their meaning. Every scalar dunder is also applied to compound receivers and operands built with the library's own operators (comparisons, &, |, ^, ==, ~, x - y, x + y, -x). Constraints that convert to Python constants are driven through add_constraint and solve(): a False must reach z3 or the answer be False."
         ),
         note="Trusted: z3 itself and its coercion of Python literals; the E8 evaluator and the reference table REF in sa/rules/exprmodel.py.",
         technique="static analysis: construction-site enumeration + finite-domain abstract evaluation of translator handlers (ast)",
@@ -60,7 +60,7 @@ CLAIMS = {
             "atoms; (SGR-2/3) SAT/UNSAT lines and assignment lines of both modes are parsed into the right variables with "
             "bool/int types, undecided keys stay None; (SGR-4/5) description = declarations, constraints, key line naming "
             "exactly the registered keys in the syntax the wrapper parses; (SGR-6) native operators' operand layout and "
-            "length guards; (SGR-7) name -> class -> external entry point. Conversions run in sequence under a model of id() in which the addresses of a finished conversion's temporaries are reused; 16 nested trees are printed and the text, read back with the Sugar grammar (n-ary +, left-associated -), must mean what the tree means. Constraints are posted one at a time and in batches in any interleaving (single, batch, literal, batch): all stay posted, in order. Not decided: the external solvers."
+            "length guards; (SGR-7) name -> class -> external entry point. Conversions run in sequence under a model of id() in which the addresses of a finished conversion's temporaries are reused; 16 nested trees are printed and the text, read back with the Sugar grammar (n-ary +, left-associated -), must mean what the tree means. Constraints are posted one at a time and in batches in any interleaving (single, batch, literal, batch): all stay posted, in order; a backend over variables whose list order differs from their ids names the keys by position. Not decided: the external solvers."
         ),
         note="Trusted: CspuzSugarInterface.java as the definition of the wire format; the Sugar grammar name table in sa/rules/c03.py; pycsugar/enigma_csp/cspuz_core share that format.",
         technique="static analysis: Java println-template extraction + abstract evaluation of printer/parsers (ast, regex)",
@@ -184,7 +184,7 @@ CLAIMS = {
             "(GEN-1) generate_problem under all 3^4 x 2 x 2 scripted callback behaviours returns None or a problem whose own "
             "solver call was SAT and whose answer passed uniqueness; (GEN-2, PUR-2) every update ArrayBuilder2D proposes on 4 "
             "boards x 8 option sets keeps range, choice set, point symmetry and adjacency, and copy_with_update/neighbour "
-            "generation never mutate or share rows with the previous problem. If a state word is not bounded for arbitrary seeds, XorShift(seed).next() is evaluated for seeds around 2**32 and an output outside [0, 2**32) is reported. The adjacency option is evaluated as a flag and as explicit offset lists (king moves, the 5x5 square). (RNG-9) the puzzle generators whose output bench/generator.py pins under the deterministic PRNG reach no use of Python's random / numpy.random / secrets (call graph inside the puzzle module). Not decided: xorshift's statistical quality."
+            "generation never mutate or share rows with the previous problem. If a state word is not bounded for arbitrary seeds, XorShift(seed).next() is evaluated for seeds around 2**32 and an output outside [0, 2**32) is reported. The adjacency option is evaluated as a flag and as explicit offset lists (king moves, the 5x5 square). (RNG-10) seed(s) / draws / seed(t) / draws / seed(s) / draws over random, randint, choice, shuffle: the two seed-s sequences are equal (default arguments are computed once per function, as Python does); (RNG-9) the puzzle generators whose output bench/generator.py pins under the deterministic PRNG reach no use of Python's random / numpy.random / secrets (call graph inside the puzzle module). Not decided: xorshift's statistical quality."
         ),
         note="Trusted: the abstract evaluator; uniformity is argued from whole-block acceptance + a + x % w + the proven generator range.",
         technique="static analysis: import/name confinement scan, bit-width abstract interpretation, abstract evaluation with scripted generators/callbacks (ast)",
